@@ -514,6 +514,12 @@ def r9(ctx):
     rs = ctx.sym(rm)
     for c in call_sites(rm, r"ReadBuffer::shift_unread_bytes$"):
         ctx.require_guards(rm, c.idx, [("buffer.is_full()", g_bool(lambda x: mentions_call(x, r"ReadBuffer::is_full$"), True))], "read_more_data:shift-when-full", "compaction")
+    # ... and always when full: on the is_full() edge every path to the physical read passes the compaction (a full buffer whose bytes
+    # were all consumed mid-frame - it ends right after 05, 05 64 or a header - must be rewound too, or the read gets an empty slice)
+    full = [g for g in ctx.gi(rm).all_guards() if g_bool(lambda x: mentions_call(x, r"ReadBuffer::is_full$"), True)(g) and g.edge]
+    shifts = {c.idx for c in call_sites(rm, r"ReadBuffer::shift_unread_bytes$")}
+    rd0 = call_sites(rm, r"PhysLayer::read$")
+    ctx.check(bool(full) and bool(shifts) and bool(rd0) and all(must_pass(rm, g.edge[1], r_.idx, shifts) for g in full for r_ in rd0), "read_more_data:always-shift-when-full", "a full buffer is always compacted before the next read", rm.where(line=rm.line), bad_detail="a full receive buffer can reach the physical read without compaction: writable() is empty, the read returns 0 bytes (UnexpectedEof) and the frame in progress is lost")
     aw = call_sites(rm, r"ReadBuffer::advance_write$")
     ctx.check(len(aw) == 1 and mentions_call(rs.call_expr(aw[0].term)[2][1], r"PhysLayer::read$"), "read_more_data:advance-by-count", "advance_write(count returned by the read)", rm.where(aw[0].idx) if aw else rm.where(line=rm.line))
     rd = call_sites(rm, r"PhysLayer::read$")
